@@ -93,6 +93,18 @@ def api_job(job):
             continue
         events.append(tables.table_event(pool, r2, d2["p_id"].tolist(), cols, tid=tid, run=k))
         info.setdefault("perms", {})[k] = {"perm": perm, "index": ik}
+        if k == len(runs):
+            # debug mode returns the inputs next to the results: the rows are identified by the p_id column the RESULT shows
+            try:
+                r3 = gs.compute(d2, date, targets=cols, rounding=False, debug=True)
+                pid3 = r3["p_id"].tolist()
+                if len(r3) != n or any(x != x for x in pid3) or sorted(int(x) for x in pid3) != sorted(df["p_id"].tolist()):
+                    info["raised"].append({"run": k + 100, "perm": perm, "index": ik, "error": f"debug=True: the result has {len(r3)} rows for {n} input rows or its p_id column is not the input's"})
+                else:
+                    events.append(tables.table_event(pool, r3, [int(x) for x in pid3], cols, tid=tid, run=k + 100))
+                    info.setdefault("perms", {})[k + 100] = {"perm": perm, "index": ik, "debug": True}
+            except Exception as e:  # noqa: BLE001
+                info["raised"].append({"run": k + 100, "perm": perm, "index": ik, "error": f"debug=True: {type(e).__name__}: {str(e)[:160]}"})
     info["runs"] = len(events) - 1
     tf = f"{work}/perm_{tid}.json"
     of = f"{work}/perm_{tid}.out.json"
